@@ -100,4 +100,762 @@ theorem run_escapeText (s : Str) : ∀ (f : Frame) (fs : List Frame), escMode (f
     simp only [escapeText] at this ⊢
     simp only [escapeWith, run_append, run_entity_text hm c h0 hr, Option.bind_some, this, pushStrKids]
 
+/-! ### attribute values inside `="…"` -/
+
+theorem step_attr_plain (tg : TagTok) (n v : Str) (st : List Frame) {c : Char}
+    (h0 : c ≠ cNul) (hr : c ≠ cCr) (ha : c ≠ '&') (hq : c ≠ '"') :
+    step ⟨.attrVal .dq tg n v, st⟩ c = some ⟨.attrVal .dq tg n (v ++ [c]), st⟩ := by
+  simp [step, stepAttrVal, h0, hr, ha, hq]
+
+theorem run_attr_amp (tg : TagTok) (n v : Str) (st : List Frame) :
+    run ⟨.attrVal .dq tg n v, st⟩ ['&', 'a', 'm', 'p', ';'] = some ⟨.attrVal .dq tg n (v ++ ['&']), st⟩ := by
+  simp [run, step, stepAttrVal, crefStep, cCr, cNul, isAlnum, isAlpha, isUpper, isLowerAlpha, isDigit, namedRefs, assoc]
+
+theorem run_attr_lt (tg : TagTok) (n v : Str) (st : List Frame) :
+    run ⟨.attrVal .dq tg n v, st⟩ ['&', 'l', 't', ';'] = some ⟨.attrVal .dq tg n (v ++ ['<']), st⟩ := by
+  simp [run, step, stepAttrVal, crefStep, cCr, cNul, isAlnum, isAlpha, isUpper, isLowerAlpha, isDigit, namedRefs, assoc]
+
+theorem run_attr_gt (tg : TagTok) (n v : Str) (st : List Frame) :
+    run ⟨.attrVal .dq tg n v, st⟩ ['&', 'g', 't', ';'] = some ⟨.attrVal .dq tg n (v ++ ['>']), st⟩ := by
+  simp [run, step, stepAttrVal, crefStep, cCr, cNul, isAlnum, isAlpha, isUpper, isLowerAlpha, isDigit, namedRefs, assoc]
+
+theorem run_attr_quot (tg : TagTok) (n v : Str) (st : List Frame) :
+    run ⟨.attrVal .dq tg n v, st⟩ ['&', 'q', 'u', 'o', 't', ';'] = some ⟨.attrVal .dq tg n (v ++ ['"']), st⟩ := by
+  simp [run, step, stepAttrVal, crefStep, cCr, cNul, isAlnum, isAlpha, isUpper, isLowerAlpha, isDigit, namedRefs, assoc]
+
+theorem run_entity_attr (tg : TagTok) (n v : Str) (st : List Frame) (c : Char)
+    (h0 : c ≠ cNul) (hr : c ≠ cCr) :
+    run ⟨.attrVal .dq tg n v, st⟩ (entityOf attrTable c) = some ⟨.attrVal .dq tg n (v ++ [c]), st⟩ := by
+  by_cases ha : c = '&'
+  · subst ha; exact run_attr_amp tg n v st
+  by_cases hl : c = '<'
+  · subst hl; exact run_attr_lt tg n v st
+  by_cases hg : c = '>'
+  · subst hg; exact run_attr_gt tg n v st
+  by_cases hq : c = '"'
+  · subst hq; exact run_attr_quot tg n v st
+  have : entityOf attrTable c = [c] := by
+    simp [entityOf, attrTable, assoc, ha, hl, hg, hq]
+  rw [this]
+  simp [run, step_attr_plain tg n v st h0 hr ha hq]
+
+theorem run_escapeAttr (s : Str) : ∀ (tg : TagTok) (n v : Str) (st : List Frame), clean s = true →
+    run ⟨.attrVal .dq tg n v, st⟩ (escapeAttr s) = some ⟨.attrVal .dq tg n (v ++ s), st⟩ := by
+  induction s with
+  | nil => intro tg n v st _; simp [escapeAttr, escapeWith, run]
+  | cons c cs ih =>
+    intro tg n v st hc
+    obtain ⟨h0, hr, hcs⟩ := clean_cons hc
+    have := ih tg n (v ++ [c]) st hcs
+    simp only [escapeAttr] at this ⊢
+    simp only [escapeWith, run_append, run_entity_attr tg n v st c h0 hr, Option.bind_some, this,
+      List.append_assoc, List.singleton_append]
+
+/-! ### names -/
+
+def attrNameChar (c : Char) : Bool := nameChar c || c = '_' || c = ':'
+
+def attrNameOK : Str → Bool
+  | [] => false
+  | c :: cs => attrNameChar c && cs.all attrNameChar
+
+def tagCharsOK : Str → Bool
+  | [] => false
+  | c :: cs => isLowerAlpha c && cs.all nameChar
+
+structure NameCharFacts (c : Char) : Prop where
+  cr : c ≠ cCr
+  nul : c ≠ cNul
+  ws : isWs c = false
+  slash : c ≠ '/'
+  gt : c ≠ '>'
+  eq : c ≠ '='
+  dq : c ≠ '"'
+  sq : c ≠ '\''
+  lt : c ≠ '<'
+  low : lower c = c
+
+theorem isUpper_false_of (c : Char) (h : isLowerAlpha c = true ∨ isDigit c = true ∨ c = '-' ∨ c = '_' ∨ c = ':') :
+    isUpper c = false := by
+  rcases h with h | h | h | h | h
+  · simp [isLowerAlpha, isUpper] at h ⊢; omega
+  · simp [isDigit, isUpper] at h ⊢; omega
+  · subst h; decide
+  · subst h; decide
+  · subst h; decide
+
+theorem attrNameChar_cases {c : Char} (h : attrNameChar c = true) :
+    isLowerAlpha c = true ∨ isDigit c = true ∨ c = '-' ∨ c = '_' ∨ c = ':' := by
+  simp only [attrNameChar, nameChar, Bool.or_eq_true, decide_eq_true_eq] at h
+  rcases h with (((h | h) | h) | h) | h
+  · exact Or.inl h
+  · exact Or.inr (Or.inl h)
+  · exact Or.inr (Or.inr (Or.inl h))
+  · exact Or.inr (Or.inr (Or.inr (Or.inl h)))
+  · exact Or.inr (Or.inr (Or.inr (Or.inr h)))
+
+theorem attrNameChar_facts {c : Char} (h : attrNameChar c = true) : NameCharFacts c := by
+  have hu := isUpper_false_of c (attrNameChar_cases h)
+  have e : ∀ d : Char, attrNameChar d = false → c ≠ d := by
+    intro d hd hcd; subst hcd; rw [h] at hd; exact Bool.noConfusion hd
+  have h1 := e cCr (by decide)
+  have h2 := e cNul (by decide)
+  have h3 := e ' ' (by decide)
+  have h4 := e cTab (by decide)
+  have h5 := e cLf (by decide)
+  have h6 := e cFf (by decide)
+  exact {
+    cr := h1, nul := h2
+    ws := by simp [isWs, h3, h4, h5, h6]
+    slash := e _ (by decide), gt := e _ (by decide), eq := e _ (by decide), dq := e _ (by decide)
+    sq := e _ (by decide), lt := e _ (by decide)
+    low := by simp [lower, hu] }
+
+theorem nameChar_attrNameChar {c : Char} (h : nameChar c = true) : attrNameChar c = true := by
+  simp [attrNameChar, h]
+
+theorem isLowerAlpha_nameChar {c : Char} (h : isLowerAlpha c = true) : nameChar c = true := by
+  simp [nameChar, h]
+
+/-! ### tag names -/
+
+theorem run_tagName (cs : Str) : ∀ (t : Str) (st : List Frame), cs.all nameChar = true →
+    run ⟨.tagName t, st⟩ cs = some ⟨.tagName (t ++ cs), st⟩ := by
+  induction cs with
+  | nil => intro t st _; simp [run]
+  | cons c cs ih =>
+    intro t st h
+    simp only [List.all_cons, Bool.and_eq_true] at h
+    have f := attrNameChar_facts (nameChar_attrNameChar h.1)
+    have : step ⟨.tagName t, st⟩ c = some ⟨.tagName (t ++ [c]), st⟩ := by
+      simp [step, f.cr, f.ws, f.slash, f.gt, f.nul, f.low]
+    simp [run, this, ih _ st h.2]
+
+theorem run_open_tagName {st : List Frame} (hm : curMode st = .data) {tag : Str}
+    (h : tagCharsOK tag = true) : run ⟨.text, st⟩ ('<' :: tag) = some ⟨.tagName tag, st⟩ := by
+  cases tag with
+  | nil => simp [tagCharsOK] at h
+  | cons c cs =>
+    simp only [tagCharsOK, Bool.and_eq_true] at h
+    have f := attrNameChar_facts (nameChar_attrNameChar (isLowerAlpha_nameChar h.1))
+    have ha : isAlpha c = true := by simp [isAlpha, h.1]
+    have h1 : step ⟨.text, st⟩ '<' = some ⟨.tagOpen, st⟩ := by
+      simp [step, stepText, hm, cCr, cNul]
+    have h2 : step ⟨.tagOpen, st⟩ c = some ⟨.tagName [c], st⟩ := by
+      have e1 : c ≠ '!' := by rintro rfl; revert ha; decide
+      simp [step, f.cr, f.slash, e1, ha, f.low]
+    simp [run, h1, h2, run_tagName cs [c] st h.2]
+
+theorem run_endTagName (cs : Str) : ∀ (t : Str) (st : List Frame), cs.all nameChar = true →
+    run ⟨.endTagName t, st⟩ cs = some ⟨.endTagName (t ++ cs), st⟩ := by
+  induction cs with
+  | nil => intro t st _; simp [run]
+  | cons c cs ih =>
+    intro t st h
+    simp only [List.all_cons, Bool.and_eq_true] at h
+    have f := attrNameChar_facts (nameChar_attrNameChar h.1)
+    have : step ⟨.endTagName t, st⟩ c = some ⟨.endTagName (t ++ [c]), st⟩ := by
+      simp [step, f.cr, f.ws, f.slash, f.gt, f.nul, f.low]
+    simp [run, this, ih _ st h.2]
+
+/-- `</tag>` in the data state closes the current node -/
+theorem run_endTag {st : List Frame} (hm : curMode st = .data) {tag : Str}
+    (h : tagCharsOK tag = true) :
+    run ⟨.text, st⟩ ('<' :: '/' :: tag ++ ['>']) = emitEnd tag st := by
+  cases tag with
+  | nil => simp [tagCharsOK] at h
+  | cons c cs =>
+    simp only [tagCharsOK, Bool.and_eq_true] at h
+    have f := attrNameChar_facts (nameChar_attrNameChar (isLowerAlpha_nameChar h.1))
+    have ha : isAlpha c = true := by simp [isAlpha, h.1]
+    have h1 : step ⟨.text, st⟩ '<' = some ⟨.tagOpen, st⟩ := by
+      simp [step, stepText, hm, cCr, cNul]
+    have h2 : step ⟨.tagOpen, st⟩ '/' = some ⟨.endTagOpen, st⟩ := by
+      simp [step, cCr]
+    have h3 : step ⟨.endTagOpen, st⟩ c = some ⟨.endTagName [c], st⟩ := by
+      simp [step, f.cr, ha, f.low]
+    have h4 : ∀ t, step ⟨.endTagName t, st⟩ '>' = emitEnd t st := by
+      intro t; simp [step, cCr, isWs, cTab, cLf, cFf]
+    have := run_append cs ['>'] ⟨.endTagName [c], st⟩
+    simp only [List.cons_append, run, h1, h2, h3]
+    rw [this, run_endTagName cs [c] st h.2]
+    simp only [Option.bind_some, run, h4]
+    simp only [List.singleton_append]
+    cases emitEnd (c :: cs) st <;> rfl
+
+/-! ### attributes -/
+
+theorem run_attrName (cs : Str) : ∀ (tg : TagTok) (n : Str) (st : List Frame), cs.all attrNameChar = true →
+    run ⟨.attrName tg n, st⟩ cs = some ⟨.attrName tg (n ++ cs), st⟩ := by
+  induction cs with
+  | nil => intro tg n st _; simp [run]
+  | cons c cs ih =>
+    intro tg n st h
+    simp only [List.all_cons, Bool.and_eq_true] at h
+    have f := attrNameChar_facts h.1
+    have : step ⟨.attrName tg n, st⟩ c = some ⟨.attrName tg (n ++ [c]), st⟩ := by
+      simp [step, f.cr, f.ws, f.slash, f.gt, f.nul, f.low, f.eq, f.dq, f.sq, f.lt]
+    simp [run, this, ih tg _ st h.2]
+
+/-- tokenizer states between two attributes: the tag token so far is `tg` -/
+inductive Bnd : Tok → TagTok → Prop where
+  | tagName (t : Str) : Bnd (.tagName t) ⟨t, []⟩
+  | afterQ (tg : TagTok) : Bnd (.afterAttrValQ tg) tg
+  | bare (tg0 : TagTok) (n : Str) (tg : TagTok) : finishAttr tg0 n [] = some tg → Bnd (.attrName tg0 n) tg
+
+theorem bnd_gt {tok : Tok} {tg : TagTok} (h : Bnd tok tg) (st : List Frame) :
+    step ⟨tok, st⟩ '>' = emitStart tg false st := by
+  cases h with
+  | tagName t => simp [step, cCr, isWs, cTab, cLf, cFf]
+  | afterQ tg => simp [step, cCr, isWs, cTab, cLf, cFf]
+  | bare tg0 n tg hf => simp [step, cCr, isWs, cTab, cLf, cFf, hf]
+
+theorem bnd_space_name {tok : Tok} {tg : TagTok} (h : Bnd tok tg) (st : List Frame) {c : Char}
+    (hc : attrNameChar c = true) : run ⟨tok, st⟩ [' ', c] = some ⟨.attrName tg [c], st⟩ := by
+  have f := attrNameChar_facts hc
+  have hb : step ⟨.beforeAttrName tg, st⟩ c = some ⟨.attrName tg [c], st⟩ := by
+    simp [step, startAttrOrEnd, f.cr, f.ws, f.slash, f.gt, f.nul, f.low, f.eq, f.dq, f.sq, f.lt]
+  cases h with
+  | tagName t =>
+    have : step ⟨.tagName t, st⟩ ' ' = some ⟨.beforeAttrName ⟨t, []⟩, st⟩ := by simp [step, cCr, isWs]
+    simp [run, this, hb]
+  | afterQ tg =>
+    have : step ⟨.afterAttrValQ tg, st⟩ ' ' = some ⟨.beforeAttrName tg, st⟩ := by simp [step, cCr, isWs]
+    simp [run, this, hb]
+  | bare tg0 n tg hf =>
+    have h1 : step ⟨.attrName tg0 n, st⟩ ' ' = some ⟨.afterAttrName tg0 n, st⟩ := by simp [step, cCr, isWs]
+    have h2 : step ⟨.afterAttrName tg0 n, st⟩ c = some ⟨.attrName tg [c], st⟩ := by
+      simp [step, hf, startAttrOrEnd, f.cr, f.ws, f.slash, f.gt, f.nul, f.low, f.eq, f.dq, f.sq, f.lt]
+    simp [run, h1, h2]
+
+/-- one printed attribute: ` name` or ` name="escaped value"` -/
+def renderFlat1 (a : Str × Option Str) : Str :=
+  ' ' :: a.1 ++ (match a.2 with
+    | some v => '=' :: '"' :: escapeAttr v ++ ['"']
+    | none => [])
+
+def renderFlat : List (Str × Option Str) → Str
+  | [] => []
+  | a :: r => renderFlat1 a ++ renderFlat r
+
+def flatVal (a : Str × Option Str) : Str × Str := (a.1, a.2.getD [])
+
+def flatClean (a : Str × Option Str) : Bool :=
+  match a.2 with
+  | some v => clean v
+  | none => true
+
+theorem run_flat1 {tok : Tok} {tg tg' : TagTok} (hb : Bnd tok tg) (st : List Frame) (a : Str × Option Str)
+    (hn : attrNameOK a.1 = true) (hv : flatClean a = true)
+    (hf : finishAttr tg a.1 (a.2.getD []) = some tg') :
+    ∃ tok', run ⟨tok, st⟩ (renderFlat1 a) = some ⟨tok', st⟩ ∧ Bnd tok' tg' := by
+  obtain ⟨n, ov⟩ := a
+  cases n with
+  | nil => simp [attrNameOK] at hn
+  | cons c cs =>
+    simp only [attrNameOK, Bool.and_eq_true] at hn
+    have hname : run ⟨tok, st⟩ (' ' :: c :: cs) = some ⟨.attrName tg (c :: cs), st⟩ := by
+      have := run_append [' ', c] cs ⟨tok, st⟩
+      simp only [List.cons_append, List.nil_append] at this
+      rw [this, bnd_space_name hb st hn.1]
+      simp [run_attrName cs tg [c] st hn.2]
+    cases ov with
+    | none =>
+      refine ⟨.attrName tg (c :: cs), ?_, ?_⟩
+      · simpa [renderFlat1] using hname
+      · exact Bnd.bare _ _ _ (by simpa using hf)
+    | some v =>
+      refine ⟨.afterAttrValQ tg', ?_, Bnd.afterQ _⟩
+      have hv' : clean v = true := by simpa [flatClean] using hv
+      have e : renderFlat1 (c :: cs, some v) = (' ' :: c :: cs) ++ (['=', '"'] ++ (escapeAttr v ++ ['"'])) := by
+        simp [renderFlat1]
+      have h1 : run ⟨.attrName tg (c :: cs), st⟩ ['=', '"'] = some ⟨.attrVal .dq tg (c :: cs) [], st⟩ := by
+        simp [run, step, cCr, isWs, cTab, cLf, cFf]
+      have h2 : step ⟨.attrVal .dq tg (c :: cs) v, st⟩ '"' = some ⟨.afterAttrValQ tg', st⟩ := by
+        have hf' : finishAttr tg (c :: cs) v = some tg' := by simpa using hf
+        simp [step, stepAttrVal, cCr, cNul, hf']
+      rw [e, run_append, hname, Option.bind_some, run_append, h1, Option.bind_some, run_append,
+        run_escapeAttr v tg (c :: cs) [] st hv', Option.bind_some]
+      simp [run, h2]
+
+def finishAll : TagTok → List (Str × Str) → Option TagTok
+  | tg, [] => some tg
+  | tg, (n, v) :: r =>
+    match finishAttr tg n v with
+    | some tg' => finishAll tg' r
+    | none => none
+
+theorem run_flat (l : List (Str × Option Str)) : ∀ {tok : Tok} {tg tg' : TagTok}, Bnd tok tg → ∀ (st : List Frame),
+    (∀ a ∈ l, attrNameOK a.1 = true ∧ flatClean a = true) →
+    finishAll tg (l.map flatVal) = some tg' →
+    ∃ tok', run ⟨tok, st⟩ (renderFlat l) = some ⟨tok', st⟩ ∧ Bnd tok' tg' := by
+  induction l with
+  | nil =>
+    intro tok tg tg' hb st _ hf
+    simp [finishAll] at hf
+    subst hf
+    exact ⟨tok, by simp [renderFlat, run], hb⟩
+  | cons a r ih =>
+    intro tok tg tg' hb st hok hf
+    simp only [List.map_cons, flatVal, finishAll] at hf
+    cases h1 : finishAttr tg a.1 (a.2.getD []) with
+    | none => simp [h1] at hf
+    | some tg1 =>
+      simp only [h1] at hf
+      have ha := hok a (by simp)
+      obtain ⟨tok1, hr1, hb1⟩ := run_flat1 hb st a ha.1 ha.2 h1
+      obtain ⟨tok2, hr2, hb2⟩ := ih hb1 st (fun x hx => hok x (by simp [hx])) hf
+      exact ⟨tok2, by simp [renderFlat, run_append, hr1, hr2], hb2⟩
+
+theorem finishAll_nodup (l : List (Str × Str)) : ∀ (t : Str) (acc : List (Str × Str)),
+    ((acc ++ l).map (·.1)).Nodup → finishAll ⟨t, acc⟩ l = some ⟨t, acc ++ l⟩ := by
+  induction l with
+  | nil => intro t acc _; simp [finishAll]
+  | cons a r ih =>
+    intro t acc h
+    obtain ⟨n, v⟩ := a
+    have hn : ¬ (acc.any (fun x => x.1 = n)) = true := by
+      intro hany
+      simp only [List.any_eq_true, decide_eq_true_eq] at hany
+      obtain ⟨x, hx, hxn⟩ := hany
+      simp only [List.map_append, List.map_cons] at h
+      have := (List.nodup_append.mp h).2.2 x.1 (List.mem_map_of_mem hx) n (by simp)
+      exact this hxn
+    have : finishAttr ⟨t, acc⟩ n v = some ⟨t, acc ++ [(n, v)]⟩ := by
+      simp [finishAttr, hn]
+    simp only [finishAll, this]
+    have h' : ((acc ++ [(n, v)] ++ r).map (·.1)).Nodup := by simpa using h
+    simpa using ih t (acc ++ [(n, v)]) h'
+
+/-! ### the attribute printer in flat form -/
+
+def plainFlatR : List Attr → List (Str × Option Str)
+  | [] => []
+  | .plain n v :: r => (n, some v) :: plainFlatR r
+  | .bool n true :: r => (n, none) :: plainFlatR r
+  | _ :: r => plainFlatR r
+
+def flatR (attrs : List Attr) : List (Str × Option Str) :=
+  plainFlatR attrs ++
+  (if classBuf attrs = [] then [] else [(sClass, some (trim (classBuf attrs)))]) ++
+  (if styleBuf attrs = [] then [] else [(sStyle, some (trim (styleBuf attrs)))])
+
+theorem renderFlat_append (a b : List (Str × Option Str)) : renderFlat (a ++ b) = renderFlat a ++ renderFlat b := by
+  induction a with
+  | nil => simp [renderFlat]
+  | cons x xs ih => simp [renderFlat, ih]
+
+theorem plainPart_eq (attrs : List Attr) : plainPart attrs = renderFlat (plainFlatR attrs) := by
+  induction attrs with
+  | nil => simp [plainPart, plainFlatR, renderFlat]
+  | cons a r ih =>
+    cases a with
+    | plain n v => simp [plainPart, plainFlatR, renderFlat, renderFlat1, ih]
+    | bool n on => cases on <;> simp [plainPart, plainFlatR, renderFlat, renderFlat1, ih]
+    | cls v => simp [plainPart, plainFlatR, ih]
+    | clsToggle n on => simp [plainPart, plainFlatR, ih]
+    | style v => simp [plainPart, plainFlatR, ih]
+    | styleKV n v => simp [plainPart, plainFlatR, ih]
+    | innerHtml raw => simp [plainPart, plainFlatR, ih]
+
+theorem attrsHtml_eq (attrs : List Attr) : attrsHtml attrs = renderFlat (flatR attrs) := by
+  simp only [attrsHtml, flatR, renderFlat_append, plainPart_eq]
+  congr 1
+  · congr 1
+    split <;> simp [renderFlat, renderFlat1, quoted]
+  · split <;> simp [renderFlat, renderFlat1, quoted]
+
+theorem plainFlat_eq (attrs : List Attr) : plainFlat attrs = (plainFlatR attrs).map flatVal := by
+  induction attrs with
+  | nil => simp [plainFlat, plainFlatR]
+  | cons a r ih =>
+    cases a with
+    | plain n v => simp [plainFlat, plainFlatR, flatVal, ih]
+    | bool n on => cases on <;> simp [plainFlat, plainFlatR, flatVal, ih]
+    | cls v => simp [plainFlat, plainFlatR, ih]
+    | clsToggle n on => simp [plainFlat, plainFlatR, ih]
+    | style v => simp [plainFlat, plainFlatR, ih]
+    | styleKV n v => simp [plainFlat, plainFlatR, ih]
+    | innerHtml raw => simp [plainFlat, plainFlatR, ih]
+
+theorem expectedAttrs_eq (attrs : List Attr) : expectedAttrs attrs = (flatR attrs).map flatVal := by
+  simp only [expectedAttrs, flatR, List.map_append, plainFlat_eq]
+  congr 1
+  · congr 1
+    split <;> simp [flatVal]
+  · split <;> simp [flatVal]
+
+/-! ### well-formed views (structure only; string *values* are unconstrained apart from `clean`) -/
+
+def attrClean : Attr → Bool
+  | .plain n v => attrNameOK n && clean v
+  | .bool n _ => attrNameOK n
+  | .cls v => clean v
+  | .clsToggle n _ => clean n
+  | .style v => clean v
+  | .styleKV n v => clean n && clean v
+  | .innerHtml _ => false
+
+/-- attribute names are tokenizable and pairwise distinct, values contain no NUL/CR, no `inner_html` -/
+def attrsOK (attrs : List Attr) : Bool :=
+  attrs.all attrClean && decide (((expectedAttrs attrs).map (·.1)).Nodup)
+
+theorem clean_append {a b : Str} : clean (a ++ b) = (clean a && clean b) := by simp [clean]
+
+theorem clean_dropWhile (p : Char → Bool) (s : Str) (h : clean s = true) : clean (s.dropWhile p) = true := by
+  induction s with
+  | nil => simp [clean]
+  | cons c cs ih =>
+    simp only [List.dropWhile]
+    split
+    · exact ih (clean_cons h).2.2
+    · exact h
+
+theorem clean_reverse (s : Str) : clean s.reverse = clean s := by simp [clean]
+
+theorem clean_trim (s : Str) (h : clean s = true) : clean (trim s) = true := by
+  simp only [trim, clean_reverse]
+  apply clean_dropWhile
+  rw [clean_reverse]
+  exact clean_dropWhile _ _ h
+
+theorem clean_classBuf (attrs : List Attr) (h : attrs.all attrClean = true) : clean (classBuf attrs) = true := by
+  induction attrs with
+  | nil => simp [classBuf, clean]
+  | cons a r ih =>
+    simp only [List.all_cons, Bool.and_eq_true] at h
+    have ihr := ih h.2
+    cases a with
+    | cls v =>
+      have : clean v = true := by simpa [attrClean] using h.1
+      simp only [classBuf]
+      have e : (' ' :: v ++ classBuf r) = [' '] ++ v ++ classBuf r := by simp
+      rw [e, clean_append, clean_append, this, ihr]; decide
+    | clsToggle n on =>
+      have : clean n = true := by simpa [attrClean] using h.1
+      simp only [classBuf]
+      have e : (' ' :: (if on = true then n else []) ++ classBuf r) = [' '] ++ (if on = true then n else []) ++ classBuf r := by simp
+      rw [e, clean_append, clean_append, ihr]
+      cases on <;> simp [this] <;> decide
+    | plain n v => simpa [classBuf] using ihr
+    | bool n on => simpa [classBuf] using ihr
+    | style v => simpa [classBuf] using ihr
+    | styleKV n v => simpa [classBuf] using ihr
+    | innerHtml raw => simpa [classBuf] using ihr
+
+theorem clean_styleBuf (attrs : List Attr) (h : attrs.all attrClean = true) : clean (styleBuf attrs) = true := by
+  induction attrs with
+  | nil => simp [styleBuf, clean]
+  | cons a r ih =>
+    simp only [List.all_cons, Bool.and_eq_true] at h
+    have ihr := ih h.2
+    cases a with
+    | style v =>
+      have : clean v = true := by simpa [attrClean] using h.1
+      simp only [styleBuf]
+      have e : (v ++ ';' :: styleBuf r) = v ++ [';'] ++ styleBuf r := by simp
+      rw [e, clean_append, clean_append, this, ihr]; decide
+    | styleKV n v =>
+      have hh : clean n = true ∧ clean v = true := by simpa [attrClean] using h.1
+      simp only [styleBuf]
+      have e : (n ++ ':' :: v ++ ';' :: styleBuf r) = n ++ [':'] ++ v ++ [';'] ++ styleBuf r := by simp
+      rw [e, clean_append, clean_append, clean_append, clean_append, hh.1, hh.2, ihr]; decide
+    | plain n v => simpa [styleBuf] using ihr
+    | bool n on => simpa [styleBuf] using ihr
+    | cls v => simpa [styleBuf] using ihr
+    | clsToggle n on => simpa [styleBuf] using ihr
+    | innerHtml raw => simpa [styleBuf] using ihr
+
+theorem innerBuf_nil (attrs : List Attr) (h : attrs.all attrClean = true) : innerBuf attrs = [] := by
+  induction attrs with
+  | nil => rfl
+  | cons a r ih =>
+    simp only [List.all_cons, Bool.and_eq_true] at h
+    cases a <;> simp_all [innerBuf, attrClean]
+
+theorem plainFlatR_ok (attrs : List Attr) (h : attrs.all attrClean = true) :
+    ∀ a ∈ plainFlatR attrs, attrNameOK a.1 = true ∧ flatClean a = true := by
+  induction attrs with
+  | nil => simp [plainFlatR]
+  | cons a r ih =>
+    simp only [List.all_cons, Bool.and_eq_true] at h
+    have ihr := ih h.2
+    cases a with
+    | plain n v =>
+      have hh : attrNameOK n = true ∧ clean v = true := by simpa [attrClean] using h.1
+      intro x hx
+      simp only [plainFlatR, List.mem_cons] at hx
+      rcases hx with rfl | hx
+      · simpa [flatClean] using hh
+      · exact ihr x hx
+    | bool n on =>
+      have hh : attrNameOK n = true := by simpa [attrClean] using h.1
+      cases on
+      · simpa [plainFlatR] using ihr
+      · intro x hx
+        simp only [plainFlatR, List.mem_cons] at hx
+        rcases hx with rfl | hx
+        · simp [flatClean, hh]
+        · exact ihr x hx
+    | cls v => simpa [plainFlatR] using ihr
+    | clsToggle n on => simpa [plainFlatR] using ihr
+    | style v => simpa [plainFlatR] using ihr
+    | styleKV n v => simpa [plainFlatR] using ihr
+    | innerHtml raw => simpa [plainFlatR] using ihr
+
+theorem flatR_ok (attrs : List Attr) (h : attrs.all attrClean = true) :
+    ∀ a ∈ flatR attrs, attrNameOK a.1 = true ∧ flatClean a = true := by
+  intro a ha
+  simp only [flatR, List.mem_append] at ha
+  rcases ha with (ha | ha) | ha
+  · exact plainFlatR_ok attrs h a ha
+  · split at ha
+    · simp at ha
+    · simp only [List.mem_singleton] at ha
+      subst ha
+      exact ⟨(by decide : attrNameOK sClass = true), by simpa [flatClean] using clean_trim _ (clean_classBuf attrs h)⟩
+  · split at ha
+    · simp at ha
+    · simp only [List.mem_singleton] at ha
+      subst ha
+      exact ⟨(by decide : attrNameOK sStyle = true), by simpa [flatClean] using clean_trim _ (clean_styleBuf attrs h)⟩
+
+/-- `<tag attrs>` in the data state hands the expected start tag token to the tree builder -/
+theorem run_startTag {st : List Frame} (hm : curMode st = .data) {tag : Str} {attrs : List Attr}
+    (ht : tagCharsOK tag = true) (ha : attrsOK attrs = true) :
+    run ⟨.text, st⟩ ('<' :: tag ++ attrsHtml attrs ++ ['>']) =
+      emitStart ⟨tag, expectedAttrs attrs⟩ false st := by
+  simp only [attrsOK, Bool.and_eq_true, decide_eq_true_eq] at ha
+  have hfin : finishAll ⟨tag, []⟩ ((flatR attrs).map flatVal) = some ⟨tag, expectedAttrs attrs⟩ := by
+    have := finishAll_nodup (expectedAttrs attrs) tag [] (by simpa using ha.2)
+    simpa [expectedAttrs_eq] using this
+  obtain ⟨tok', hr, hb⟩ := run_flat (flatR attrs) (Bnd.tagName tag) st (flatR_ok attrs ha.1) hfin
+  have e : ('<' :: tag ++ attrsHtml attrs ++ ['>']) = ('<' :: tag) ++ (renderFlat (flatR attrs) ++ ['>']) := by
+    simp [attrsHtml_eq]
+  rw [e, run_append, run_open_tagName hm ht, Option.bind_some, run_append, hr, Option.bind_some]
+  simp only [run, bnd_gt hb]
+  cases emitStart ⟨tag, expectedAttrs attrs⟩ false st <;> rfl
+
+/-! ### raw-text elements: `</tag>` seen from RCDATA / RAWTEXT / script data -/
+
+def rawLike (tag : Str) : Bool :=
+  tag = tTitle || tag = tTextarea || tag = tStyle || tag = tNoscript || tag = tScript
+
+theorem rawLike_cases {tag : Str} (ht : rawLike tag = true) :
+    tag = tTitle ∨ tag = tTextarea ∨ tag = tStyle ∨ tag = tNoscript ∨ tag = tScript := by
+  simp only [rawLike, Bool.or_eq_true, decide_eq_true_eq] at ht
+  rcases ht with (((h | h) | h) | h) | h <;> simp [h]
+
+theorem run_rawEnd {tag : Str} (ht : rawLike tag = true) (tok : Tok) (htok : tok = .text ∨ tok = .textSkipLf)
+    (f g : Frame) (rest : List Frame) (hf : f.tag = tag) :
+    run ⟨tok, f :: g :: rest⟩ ('<' :: '/' :: tag ++ ['>']) =
+      some ⟨.text, { g with kidsRev := .elem f.tag f.attrs f.kidsRev.reverse :: g.kidsRev } :: rest⟩ := by
+  obtain ⟨ftag, fattrs, fk⟩ := f
+  simp only at hf
+  subst hf
+  have m1 : modeOfTag ['t','i','t','l','e'] = .rcdata := by decide
+  have m2 : modeOfTag ['t','e','x','t','a','r','e','a'] = .rcdata := by decide
+  have m3 : modeOfTag ['s','t','y','l','e'] = .rawtext := by decide
+  have m4 : modeOfTag ['n','o','s','c','r','i','p','t'] = .rawtext := by decide
+  have m5 : modeOfTag ['s','c','r','i','p','t'] = .script := by decide
+  rcases rawLike_cases ht with h | h | h | h | h <;> subst h <;> rcases htok with h | h <;> subst h
+  all_goals
+    simp [run, step, stepText, curMode, curTag, m1, m2, m3, m4, m5, cCr, cNul, cLf, isAlpha, isUpper,
+      isLowerAlpha, lower, emitEnd,
+      show tTitle = ['t','i','t','l','e'] from rfl, show tTextarea = ['t','e','x','t','a','r','e','a'] from rfl,
+      show tStyle = ['s','t','y','l','e'] from rfl, show tNoscript = ['n','o','s','c','r','i','p','t'] from rfl,
+      show tScript = ['s','c','r','i','p','t'] from rfl]
+
+theorem rawLike_facts {tag : Str} (ht : rawLike tag = true) :
+    isVoid tag = false ∧ tagCharsOK tag = true ∧ kind tag ≠ .unsupported ∧ kind tag ≠ .void := by
+  rcases rawLike_cases ht with h | h | h | h | h <;> subst h <;> decide
+
+theorem emitStart_raw {tag : Str} (ht : rawLike tag = true) (a : List (Str × Str)) (st : List Frame)
+    (hn : nestOK tag (st.map (·.tag)) = true) :
+    ∃ tok, (tok = .text ∨ tok = .textSkipLf) ∧ emitStart ⟨tag, a⟩ false st = some ⟨tok, ⟨tag, a, []⟩ :: st⟩ := by
+  have hk := rawLike_facts ht
+  refine ⟨if tag = tTextarea then .textSkipLf else .text, ?_, ?_⟩
+  · split <;> simp
+  · simp only [emitStart, hn]
+    cases hkind : kind tag <;> simp_all
+
+/-! ### well-formed views for the main theorem -/
+
+/-- an ordinary (escaping, non-void) container the parser subset knows -/
+def genericOK (tag : Str) : Bool :=
+  kind tag = .generic && !isVoid tag && escapeChildren tag && tagCharsOK tag && tag != tTextarea
+
+/-- a void element both sides agree on -/
+def voidOK (tag : Str) : Bool := kind tag = .void && isVoid tag && tagCharsOK tag
+
+/-- children of `<title>` (escaped, RCDATA): one string -/
+def titleKids : List Node → Bool
+  | [.text s] => clean s
+  | _ => false
+
+mutual
+/-- `anc`: tags of the open elements, innermost first.  Elements are ordinary containers (any nesting
+the tree builder accepts), void elements, raw-text elements *without children*, or `<title>` with one
+string; all strings are free of NUL/CR. -/
+def wfNode (anc : List Str) : Node → Bool
+  | .text s => clean s
+  | .elem tag attrs kids =>
+    attrsOK attrs && nestOK tag anc &&
+      ((genericOK tag && wfKids (tag :: anc) kids) || (voidOK tag && kids.isEmpty) ||
+       (rawLike tag && kids.isEmpty) || (tag = tTitle && titleKids kids))
+def wfKids (anc : List Str) : List Node → Bool
+  | [] => true
+  | n :: ns => wfNode anc n && wfKids anc ns
+end
+
+theorem run_marker {f : Frame} {fs : List Frame} (hm : curMode (f :: fs) = .data) :
+    run ⟨.text, f :: fs⟩ ['<', '!', '>'] = some ⟨.text, { f with kidsRev := .comment [] :: f.kidsRev } :: fs⟩ := by
+  simp [run, step, stepText, hm, cCr, cNul, stepBogus, emitComment, pushTree]
+
+theorem run_space {f : Frame} {fs : List Frame} (tok : Tok) (htok : tok = .text ∨ tok = .textSkipLf)
+    (hm : escMode (f :: fs)) :
+    run ⟨tok, f :: fs⟩ [' '] = some ⟨.text, { f with kidsRev := pushCharKids ' ' f.kidsRev } :: fs⟩ := by
+  rcases htok with h | h <;> subst h <;> rcases hm with hm | hm <;>
+    simp [run, step, stepText, hm, cCr, cNul, cLf, emitChar]
+
+/-- a text view after `k` (no text node last in `k`) -/
+theorem run_textBody {f : Frame} {fs : List Frame} (hm : escMode (f :: fs)) (s : Str)
+    (hs : clean s = true) (hk : headIsText f.kidsRev = false) :
+    run ⟨.text, f :: fs⟩ (if s = [] then [' '] else escapeText s) =
+      some ⟨.text, { f with kidsRev := .text (if s = [] then [' '] else s) :: f.kidsRev } :: fs⟩ := by
+  by_cases h : s = []
+  · subst h
+    simp only [if_true]
+    rw [run_space .text (Or.inl rfl) hm]
+    have : pushCharKids ' ' f.kidsRev = .text [' '] :: f.kidsRev := by
+      cases hk' : f.kidsRev with
+      | nil => rfl
+      | cons x xs => cases x <;> simp_all [pushCharKids, headIsText]
+    rw [this]
+  · simp only [h, if_false]
+    rw [run_escapeText s f fs hm hs, pushStrKids_fresh s _ h hk]
+
+theorem modeOfTag_generic {tag : Str} (h : kind tag = .generic) : modeOfTag tag = .data := by
+  simp [modeOfTag, h]
+
+mutual
+theorem run_node : (n : Node) → ∀ (f : Frame) (fs : List Frame) (pos : Pos),
+    wfNode ((f :: fs).map (·.tag)) n = true → modeOfTag f.tag = .data →
+    (pos = .afterText ↔ headIsText f.kidsRev = true) →
+    run ⟨.text, f :: fs⟩ (nodeHtml true pos n) =
+      some ⟨.text, { f with kidsRev := (structNode pos n).reverse ++ f.kidsRev } :: fs⟩
+  | .text s, f, fs, pos, hw, hm, hp => by
+    have hs : clean s = true := by simpa [wfNode] using hw
+    have hm' : curMode (f :: fs) = .data := hm
+    simp only [nodeHtml, textHtml, structNode, if_true]
+    by_cases ha : pos = .afterText
+    · simp only [ha, if_true]
+      rw [run_append, run_marker hm', Option.bind_some]
+      have := run_textBody (f := { f with kidsRev := .comment [] :: f.kidsRev }) (fs := fs) (Or.inl hm) s hs rfl
+      simp only [this]
+      simp
+    · have hk : headIsText f.kidsRev = false := by
+        cases h : headIsText f.kidsRev with
+        | false => rfl
+        | true => exact absurd (hp.mpr h) ha
+      simp only [ha, if_false, List.nil_append]
+      rw [run_textBody (Or.inl hm') s hs hk]
+      simp
+  | .elem tag attrs kids, f, fs, pos, hw, hm, _ => by
+    have hm' : curMode (f :: fs) = .data := hm
+    simp only [wfNode, Bool.and_eq_true, Bool.or_eq_true] at hw
+    obtain ⟨⟨hattrs, hnest⟩, hcase⟩ := hw
+    have hnest' : nestOK tag (f.tag :: List.map (fun x => x.tag) fs) = true := by simpa using hnest
+    have hinner : innerBuf attrs = [] := by
+      simp only [attrsOK, Bool.and_eq_true] at hattrs
+      exact innerBuf_nil attrs hattrs.1
+    rcases hcase with ((⟨hg, hkids⟩ | ⟨hv, hempty⟩) | ⟨hraw, hempty⟩) | ⟨htitle, htk⟩
+    · -- generic container
+      simp only [genericOK, Bool.and_eq_true, decide_eq_true_eq, Bool.not_eq_true', bne_iff_ne, ne_eq] at hg
+      obtain ⟨⟨⟨⟨hkind, hnv⟩, hesc⟩, hchars⟩, hnta⟩ := hg
+      have hstart : emitStart ⟨tag, expectedAttrs attrs⟩ false (f :: fs) =
+          some ⟨.text, ⟨tag, expectedAttrs attrs, []⟩ :: f :: fs⟩ := by
+        simp only [emitStart]
+        simp [hnest', hkind, hnta]
+      have hopen := run_startTag (st := f :: fs) hm' hchars hattrs
+      have hmk : modeOfTag tag = .data := modeOfTag_generic hkind
+      have ih := run_kids kids ⟨tag, expectedAttrs attrs, []⟩ (f :: fs) .firstChild hkids hmk
+        (by simp [headIsText])
+      have hclose : run ⟨.text, ⟨tag, expectedAttrs attrs, (structKids .firstChild kids).reverse ++ []⟩ :: f :: fs⟩
+          ('<' :: '/' :: tag ++ ['>']) =
+          some ⟨.text, { f with kidsRev := .elem tag (expectedAttrs attrs) (structKids .firstChild kids) :: f.kidsRev } :: fs⟩ := by
+        rw [run_endTag (by exact hmk) hchars]
+        simp [emitEnd]
+      have e : nodeHtml true pos (.elem tag attrs kids) =
+          ('<' :: tag ++ attrsHtml attrs ++ ['>']) ++ (kidsHtml true .firstChild kids ++ ('<' :: '/' :: tag ++ ['>'])) := by
+        simp [nodeHtml, hnv, hinner, hesc]
+      rw [e, run_append, hopen, hstart, Option.bind_some, run_append, ih, Option.bind_some, hclose]
+      simp [structNode, hnv, hinner, hesc]
+    · -- void element
+      simp only [voidOK, Bool.and_eq_true, decide_eq_true_eq] at hv
+      obtain ⟨⟨hkind, hisv⟩, hchars⟩ := hv
+      have hstart : emitStart ⟨tag, expectedAttrs attrs⟩ false (f :: fs) =
+          some ⟨.text, { f with kidsRev := .elem tag (expectedAttrs attrs) [] :: f.kidsRev } :: fs⟩ := by
+        simp only [emitStart]
+        simp [hnest', hkind, pushTree]
+      have hopen := run_startTag (st := f :: fs) hm' hchars hattrs
+      have e : nodeHtml true pos (.elem tag attrs kids) = ('<' :: tag ++ attrsHtml attrs ++ ['>']) := by
+        simp [nodeHtml, hisv]
+      rw [e, hopen, hstart]
+      simp [structNode, hisv]
+    · -- raw-text element without children
+      have hk : kids = [] := by cases kids <;> simp_all
+      subst hk
+      obtain ⟨hnv, hchars, _, _⟩ := rawLike_facts hraw
+      obtain ⟨tok, htok, hstart⟩ := emitStart_raw hraw (expectedAttrs attrs) (f :: fs) hnest
+      have hopen := run_startTag (st := f :: fs) hm' hchars hattrs
+      have hclose := run_rawEnd hraw tok htok ⟨tag, expectedAttrs attrs, []⟩ f fs rfl
+      have e : nodeHtml true pos (.elem tag attrs []) =
+          ('<' :: tag ++ attrsHtml attrs ++ ['>']) ++ ('<' :: '/' :: tag ++ ['>']) := by
+        simp [nodeHtml, hnv, hinner, kidsHtml]
+      rw [e, run_append, hopen, hstart, Option.bind_some, hclose]
+      simp [structNode, hnv, hinner, structKids, rawText, textTree]
+    · -- <title> with one string (escaped; RCDATA decodes it)
+      simp only [decide_eq_true_eq] at htitle
+      subst htitle
+      match kids, htk with
+      | [.text s], htk =>
+        have hs : clean s = true := by simpa [titleKids] using htk
+        have hraw : rawLike tTitle = true := by decide
+        obtain ⟨hnv, hchars, _, _⟩ := rawLike_facts hraw
+        have hstart : emitStart ⟨tTitle, expectedAttrs attrs⟩ false (f :: fs) =
+            some ⟨.text, ⟨tTitle, expectedAttrs attrs, []⟩ :: f :: fs⟩ := by
+          simp only [emitStart]
+          simp [hnest', show tTitle ≠ tTextarea from by decide]
+        have hopen := run_startTag (st := f :: fs) hm' hchars hattrs
+        have hbody := run_textBody (f := ⟨tTitle, expectedAttrs attrs, []⟩) (fs := f :: fs)
+          (Or.inr (show modeOfTag tTitle = .rcdata from by decide)) s hs rfl
+        have hclose := run_rawEnd hraw .text (Or.inl rfl)
+          ⟨tTitle, expectedAttrs attrs, [.text (if s = [] then [' '] else s)]⟩ f fs rfl
+        have e : nodeHtml true pos (.elem tTitle attrs [.text s]) =
+            ('<' :: tTitle ++ attrsHtml attrs ++ ['>']) ++
+              ((if s = [] then [' '] else escapeText s) ++ ('<' :: '/' :: tTitle ++ ['>'])) := by
+          simp [nodeHtml, hnv, hinner, show escapeChildren tTitle = true from by decide, kidsHtml, textHtml]
+        rw [e, run_append, hopen, hstart, Option.bind_some, run_append, hbody, Option.bind_some, hclose]
+        simp [structNode, hnv, hinner, show escapeChildren tTitle = true from by decide, structKids]
+theorem run_kids : (ns : List Node) → ∀ (f : Frame) (fs : List Frame) (pos : Pos),
+    wfKids ((f :: fs).map (·.tag)) ns = true → modeOfTag f.tag = .data →
+    (pos = .afterText ↔ headIsText f.kidsRev = true) →
+    run ⟨.text, f :: fs⟩ (kidsHtml true pos ns) =
+      some ⟨.text, { f with kidsRev := (structKids pos ns).reverse ++ f.kidsRev } :: fs⟩
+  | [], f, fs, pos, _, _, _ => by simp [kidsHtml, structKids, run]
+  | n :: ns, f, fs, pos, hw, hm, hp => by
+    simp only [wfKids, Bool.and_eq_true] at hw
+    have h1 := run_node n f fs pos hw.1 hm hp
+    have hp' : posAfter n = .afterText ↔
+        headIsText ((structNode pos n).reverse ++ f.kidsRev) = true := by
+      cases n with
+      | text s => simp [posAfter, structNode, headIsText]
+      | elem tag attrs kids => simp [posAfter, structNode, headIsText]
+    have h2 := run_kids ns { f with kidsRev := (structNode pos n).reverse ++ f.kidsRev } fs (posAfter n)
+      hw.2 hm hp'
+    simp only [kidsHtml, run_append, h1, Option.bind_some, h2, structKids]
+    simp
+end
+
 end Leptos.Html
